@@ -22,6 +22,19 @@ mod compact {
             assert!(c.line == line && c.column == column);
         }
     }
+    /// packed spans (what `Span::set_info` stores): `with_cursors` is Some exactly when BOTH ends fit, and `cursors`
+    /// gives back the same (start, end) in the same order. Loop-free over all four usizes: complete.
+    #[kani::proof]
+    fn compact_span_roundtrip() {
+        let (l0, c0, l1, c1): (usize, usize, usize, usize) = (kani::any(), kani::any(), kani::any(), kani::any());
+        let fits = |line: usize, column: usize| (line as u128) + 1 <= ((1u128 << 18) - 1) && (column as u128) <= ((1u128 << 14) - 1);
+        let packed = CompactSpan2::with_cursors(Cursor2 { line: l0, column: c0 }, Cursor2 { line: l1, column: c1 });
+        assert!(packed.is_some() == (fits(l0, c0) && fits(l1, c1)));
+        if let Some(p) = packed {
+            let (s, e) = p.cursors();
+            assert!(s.line == l0 && s.column == c0 && e.line == l1 && e.column == c1);
+        }
+    }
     /// `cursor` never underflows/panics on any value `with_cursor` can produce (NonZeroU32 with line_plus_one >= 1)
     #[kani::proof]
     fn compact_cursor_total() {
